@@ -187,6 +187,21 @@ def lits_of(f):
     return []
 
 
+def preceding_statements(root, node):
+    """Statements that precede `node` in the blocks enclosing it, outermost block first (the straight-line prefix leading to it)."""
+    pm = parent_map(root)
+    chain = [node] + ancestors(pm, node)
+    out = []
+    for child, par in reversed(list(zip(chain[:-1], chain[1:]))):
+        if par.get("k") == "Block":
+            for st in par.get("stmts", []):
+                e = st.get("e") if st.get("k") in ("ExprS", "Semi") else None
+                if st is child or e is child:
+                    break
+                out.append(st)
+    return out
+
+
 def before(root, a, b):
     """True if `a` lies in a statement that comes earlier than the statement containing `b` in their closest common block
     (a may be conditional; no claim that it executes)."""
